@@ -39,6 +39,7 @@ func init() {
 		"vfTree":       vfTree,
 		"vfDigest":     vfDigest,
 		"vfAllowPanic": vfAllowPanic,
+		"vfHangCheck":  func(fr *frame, args []value) value { fr.i.pc.hangCheck = args[0].(bool); return nil },
 		"vfNote":       vfNote,
 		"vfParam":      vfParam,
 		"vfSymbolic":   vfSymbolic,
